@@ -33,15 +33,24 @@ def archive_params(ctx: Ctx, closure: Dict[str, Func]) -> Dict[str, Set[str]]:
     """function -> parameter names that may carry the archive handle (propagated from SevenZipFile.fp)."""
     arch: Dict[str, Set[str]] = {}
 
+    busy: Set[tuple] = set()
+
     def is_arch(f: Func, e: ast.AST) -> bool:
         if isinstance(e, ast.Attribute) and e.attr == "fp" and isinstance(e.value, ast.Name) and e.value.id == "self" and f.cls == "SevenZipFile":
             return True
         if isinstance(e, ast.Name):
             if e.id in arch.get(f.qname, set()):
                 return True
-            for v in q.assigned_values(f, e.id):
-                if v is not e and is_arch_value(f, v):
-                    return True
+            key = (f.qname, e.id)
+            if key in busy:
+                return False
+            busy.add(key)
+            try:
+                for v in q.assigned_values(f, e.id):
+                    if v is not e and is_arch_value(f, v):
+                        return True
+            finally:
+                busy.discard(key)
         return False
 
     def is_arch_value(f: Func, v: ast.AST) -> bool:
